@@ -378,7 +378,7 @@ func (fr *frame) unwrapErr(e iface) (iface, []value, bool) {
 	if e.t == nil {
 		return iface{}, nil, false
 	}
-	m := in.prog.LookupMethod(e.t, nil, "Unwrap")
+	m := in.findMethod(e.t, "Unwrap")
 	if m == nil {
 		return iface{}, nil, false
 	}
@@ -418,7 +418,7 @@ func (fr *frame) errIs(err, target iface, depth int) bool {
 				return true
 			}
 		}
-		if m := in.prog.LookupMethod(err.t, nil, "Is"); m != nil && m.Signature.Params().Len() == 1 && m.Signature.Results().Len() == 1 {
+		if m := in.findMethod(err.t, "Is"); m != nil && m.Signature.Params().Len() == 1 && m.Signature.Results().Len() == 1 {
 			if b := basicOf(m.Signature.Results().At(0).Type()); b != nil && b.Kind() == types.Bool {
 				if fr.decide(call(in, fr, token.NoPos, m, []value{err.v, target})) {
 					return true
@@ -478,7 +478,7 @@ func (fr *frame) errAs(err iface, T types.Type, cell *value, depth int) bool {
 			in.store(T, cell, err.v)
 			return true
 		}
-		if m := in.prog.LookupMethod(err.t, nil, "As"); m != nil && m.Signature.Params().Len() == 1 {
+		if m := in.findMethod(err.t, "As"); m != nil && m.Signature.Params().Len() == 1 {
 			if fr.decide(call(in, fr, token.NoPos, m, []value{err.v, iface{t: types.NewPointer(T), v: cell}})) {
 				return true
 			}
